@@ -174,7 +174,7 @@ theorem inv_netClose (s : State) (h : Inv s) (c : Nat) (r : String) : Inv (netCl
       rw [netDown_reset s i c r hl hc hno]
       exact inv_finish_close s h i c _ _ hi hl hc hc (by simp [Stream.live, destroyed_ne_reset]) 
         (by simp [(h.liveFresh i hi hl).2.2]) (by simp [(h.liveFresh i hi hl).1]) (by simp [(h.liveFresh i hi hl).2.1])
-        (by simp [(h.liveFresh i hi hl).1]) (by simp) rfl rfl
+        (by simp [(h.liveFresh i hi hl).1]) (by simp) rfl rfl (by simp)
     | none =>
       simp only []
       have hidle : c ∈ s.idle := by
@@ -223,7 +223,7 @@ theorem inv_response (s : State) (h : Inv s) (i : Nat) (hi : i < s.nStreams) (hl
     exact inv_finish_put s1 h1 i _ _ hi1 hl1 rfl rfl (by simp [Stream.live, destroyed_ne_reset]) (by simp [hf.2.2]) (by simp [hf.1]) (by simp [hf.2.1])
   · rw [destroyStream_close s1 i _ hl1 rfl hcl hcc hno, tFinishClose_updS]
     exact inv_finish_close s1 h1 i _ _ _ hi1 hl1 rfl rfl (by simp [Stream.live, destroyed_ne_reset]) (by simp [hf.2.2]) (by simp [hf.1])
-      (by simp [hf.2.1]) (by simp [hf.2.1]) (by simp [hf.2.1]) rfl rfl
+      (by simp [hf.2.1]) (by simp [hf.2.1]) (by simp [hf.2.1]) rfl rfl (by simp [hf.1])
 
 /-- a live stream on an open client is reset with a reason that marks the client -/
 theorem inv_reset (s : State) (h : Inv s) (i : Nat) (r : String) (hi : i < s.nStreams) (hl : (s.stream i).live = true)
@@ -234,7 +234,7 @@ theorem inv_reset (s : State) (h : Inv s) (i : Nat) (r : String) (hi : i < s.nSt
   have hf := h.liveFresh i hi hl
   rw [resetStream_close s i _ r hl rfl hcl hno hm]
   exact inv_finish_close s h i _ _ _ hi hl rfl rfl (by simp [Stream.live, destroyed_ne_reset]) (by simp [hf.2.2]) (by simp [hf.1])
-    (by simp [hf.2.1]) (by simp [hf.1]) (by simp) rfl rfl
+    (by simp [hf.2.1]) (by simp [hf.1]) (by simp) rfl rfl (by simp)
 
 theorem inv_foldClose (l : List Nat) (s : State) (h : Inv s) : Inv (foldClose l s) := by
   induction l generalizing s with
